@@ -20,3 +20,9 @@ def install(it, ns, B):
         b, off, k = ops.as_sbytes(a[0]), a[1], a[2]
         terms = [b.at(zint(off) + i) * (1 << (8 * i)) for i in range(k)]
         return mk_int(z3.Sum(terms) if k > 1 else terms[0])
+
+    @B('byte_at')
+    def _byte_at(it, a, kw):
+        """b[i] without bounds check (for use under quantifiers)."""
+        b = ops.as_sbytes(a[0])
+        return mk_int(b.at(zint(a[1])))
